@@ -67,8 +67,9 @@ def write_case(root: Path, sdl: Optional[str], queries: Optional[str], config: D
     return cfg
 
 
-def run_cli(root: Path, strategy: Optional[str] = "client", config: Optional[Dict[str, Any]] = None) -> GenResult:
-    """Invoke ariadne_codegen.main.main through click's test runner with cwd=root."""
+def run_cli(root: Path, strategy: Optional[str] = "client", config: Optional[Dict[str, Any]] = None, config_rel: Optional[str] = None) -> GenResult:
+    """Invoke ariadne_codegen.main.main through click's test runner with cwd=root.  config_rel: the configuration is not ./pyproject.toml but this file
+    (moved there), passed with --config; paths inside it stay relative to the working directory, as documented."""
     from click.testing import CliRunner
 
     from ariadne_codegen.exceptions import CodeGenException
@@ -79,6 +80,12 @@ def run_cli(root: Path, strategy: Optional[str] = "client", config: Optional[Dic
     os.chdir(root)
     try:
         args = [strategy] if strategy else []
+        if config_rel:
+            dst = Path(root) / config_rel
+            dst.parent.mkdir(parents=True, exist_ok=True)
+            if (Path(root) / "pyproject.toml").exists():
+                (Path(root) / "pyproject.toml").replace(dst)
+            args = ["--config", config_rel] + args
         result = CliRunner().invoke(main, args, catch_exceptions=True)
     finally:
         os.chdir(old)
